@@ -177,6 +177,9 @@ impl<'a> Ctx<'a> {
         self.obs.evaluations += 1;
         let env = if S::environments() && self.env_rng.below(ENV_EVERY) == 0 {
             let e = crate::env::draw_env(&mut self.env_rng);
+            if let crate::env::Env::AfterIdle { secs, .. } = &e {
+                self.obs.add("simulated-seconds-jumped", *secs as u64);
+            }
             self.obs.count(match &e {
                 crate::env::Env::After(_) => "fault:env-after-refused-operation",
                 crate::env::Env::Unwinding => "fault:env-while-unwinding",
